@@ -404,6 +404,41 @@ def finish_coverage(res, cov):
         res.extra['line_coverage'] = f'coverage pass failed: {exc}'
 
 
+def empty_geometry_class(deck, conv):
+    '''The one known way a valid deck of the sweep is rejected: the writer dies
+    with max() of an empty table because EVERY generated volume is an empty
+    region (open finding all_generated_volumes_empty, the C13 defect
+    all_volumes_empty_after_dedup reached through FILL + inlining).  The class
+    is given only when the exception is exactly that one AND the reference
+    semantics say that no point can belong to any generated volume.'''
+    if conv.exc != 'ValueError' or 'max() iterable argument is empty' not in (conv.msg or ''):
+        return None
+    try:
+        if c05_sweep.all_generated_volumes_empty(deck):
+            return 'all_generated_volumes_empty'
+    except Exception:                          # pylint: disable=broad-except
+        return None
+    return None
+
+
+def all_empty_witness():
+    '''Container z > -0.6 (live) filled, without transformation, with a
+    universe whose two cells both require z < -0.6; the other level-0 cell has
+    importance 0.'''
+    def cell(cid, mat, expr, u=0, fill=None, imp=1):
+        return {'id': cid, 'mat': mat, 'rho': '-1.0' if mat else None,
+                'expr': expr, 'imp': {'n': imp}, 'u': u, 'lat': None,
+                'fill': fill, 'trcl': None, 'like': None}
+    return {'title': 'c05 every generated volume is an empty region', 'data': [],
+            'transforms': {}, 'materials': {m: ['1001', '1.0'] for m in (1, 2)},
+            'surfaces': [{'id': 1, 'mn': 'pz', 'params': [-0.6], 'tr': None, 'bc': ''},
+                         {'id': 2, 'mn': 'px', 'params': [0.3], 'tr': None, 'bc': ''}],
+            'cells': [cell(1, 0, ('s', 1), fill={'u': 1, 'tr': None}),
+                      cell(2, 0, ('s', -1), imp=0),
+                      cell(10, 1, deckmod.leaf_expr([-1, -2]), u=1),
+                      cell(11, 2, deckmod.leaf_expr([-1, 2]), u=1)]}
+
+
 def sweep(res, rng, n_decks, n_points, tag):
     '''Whole conversions vs the reference location. Returns the number of
     failing decks.'''
@@ -449,7 +484,8 @@ def sweep(res, rng, n_decks, n_points, tag):
                 f'valid nested-universe deck rejected ({" ".join(options)}): '
                 f'{conv.exc}: {conv.msg[:200]}',
                 {'input': {'deck': text, 'options': options,
-                           'abstract': deck}}, found_input=True)
+                           'abstract': deck}},
+                cls=empty_geometry_class(deck, conv), found_input=True)
             continue
         if i < 2:
             res.sample({'deck': text, 'options': options,
@@ -541,6 +577,22 @@ def run(res, tier, seed, proofs_ok):
                              'transformation follows the TRCL)',
                  'observed': [f['why'] for f in fails[:5]]},
                 found_input=True)
+
+    # open finding: the writer crashes when every generated volume is empty
+    import impl
+    wdeck = all_empty_witness()
+    wopts = ['--always-inline-filling', '--always-inline-filled']
+    wconv = impl.convert(deckmod.render(wdeck), wopts)
+    res.count('witness:all_generated_volumes_empty')
+    res.seen((deckmod.render(wdeck), tuple(wopts)), nontrivial=True)
+    if not wconv.ok:
+        res.violation(
+            'impl-violation',
+            f'deck whose generated volumes are all empty regions rejected '
+            f'({" ".join(wopts)}): {wconv.exc}: {wconv.msg[:200]}',
+            {'input': {'deck': deckmod.render(wdeck), 'options': wopts,
+                       'abstract': wdeck}},
+            cls=empty_geometry_class(wdeck, wconv), found_input=True)
 
     for name, deck, text, options in shared_surface_witnesses():
         fails = text_failures(deck, text, options)
@@ -813,6 +865,21 @@ def replay(path):
         import mcnpref
         conv = impl.convert(inp['deck'], inp.get('options', []))
         print('conversion:', conv)
+        if not conv.ok and 'abstract' in inp:
+            import copy
+            deck0 = copy.deepcopy(inp['abstract'])
+            deck0['transforms'] = {int(k): v for k, v in
+                                   deck0.get('transforms', {}).items()}
+            for cell in deck0['cells']:
+                if 'expr' in cell:
+                    cell['expr'] = _tup(cell['expr'])
+                for holder in (cell, cell.get('fill') or {}):
+                    key = 'trcl' if holder is cell else 'tr'
+                    if isinstance(holder.get(key), list):
+                        holder[key] = tuple(holder[key])
+            print('reference: every generated volume is an empty region:',
+                  c05_sweep.all_generated_volumes_empty(deck0))
+            print('class:', empty_geometry_class(deck0, conv))
         if conv.text and 'abstract' in inp:
             deck = inp['abstract']
             deck['transforms'] = {int(k): v for k, v in
